@@ -103,7 +103,11 @@ def run(ctx: core.Ctx):
                 ctx.case(("large", npx, kind, dt.__name__), sample=dict(pixels_in_zone=n, kind=kind, out=dt.__name__, mean=m, count=cnt))
                 ctx.count("large-zone")
                 tol = 1.2e-7 if dt is np.float32 else 1e-12
-                cnt_ok = abs(cnt - n) <= (n * 6e-8 if dt is np.float32 else 0)
+                cnt_ok = cnt == n
+                if not cnt_ok and dt is np.float32 and n > 2 ** 24 and cnt == float(np.float32(n)):
+                    # recorded finding: the count is stored in the float32 result array and rounded there (and only there)
+                    ctx.fail("do_mean", dict(pixels_in_zone=n, kind=kind, dtype="float32"), cnt, n, signature="do_mean:count-in-float32")
+                    cnt_ok = True
                 if not (abs(m - s / n) <= tol * abs(s / n) and cnt_ok and np.isnan(res[0, 2, 0]) and res[0, 2, 1] == 0):
                     ctx.fail("do_mean", dict(pixels_in_zone=n, kind=kind, dtype=dt.__name__), [m, cnt], [s / n, n],
                              note="mean accurate to the output dtype's precision irrespective of zone size")
